@@ -114,8 +114,10 @@ class InputFile:
         if self._data is None and self.ui_json is not None:
             original = self.validation_options.get("update_enabled", True)
             self.validation_options["update_enabled"] = False
-            self.data = flatten(self.ui_json)
-            self.validation_options["update_enabled"] = original
+            try:
+                self.data = flatten(self.ui_json)
+            finally:
+                self.validation_options["update_enabled"] = original
 
         return self._data
 
